@@ -35,6 +35,7 @@ PROFILES = {
     'c08': dict(kinds=['key', 'xx', 'lwh'] + K_MACRO, depth=2),
     'c09': dict(kinds=['key', 'chordout', 'xx', 'lwh', 'taphold'] + K_CHORD1, depth=2),
     'c10': dict(kinds=['key', 'xx', 'lwh', 'multi'] + K_FORK, depth=2),
+    'c14': dict(kinds=['key', 'key', 'chordout', 'multi', 'taphold', 'tapdance', 'oneshot', 'fork', 'switch', 'chord1', 'unmod', 'src', 'trans', 'lwh', 'lwh', 'xx'], depth=3, overrides=True),
     'all': dict(kinds=K_BASIC + K_TAPHOLD + K_ONESHOT + K_TAPDANCE + K_MACRO + K_FORK + K_RPT + K_CUSTOM + K_CHORD1,
                 depth=3, tag='all'),
 }
@@ -308,7 +309,7 @@ class CfgGen:
                 items.append('(%s) %s' % (' '.join(c), self.action(1, 'nested')))
                 self.kinds = saved
             lines.append('(defchords %s %d %s)' % (g, self.timeout(), ' '.join(items)))
-        if self.p.get('overrides') or ('all' in self.p.get('tag', '') and rng.random() < 0.3):
+        if (self.p.get('overrides') and rng.random() < 0.3) or ('all' in self.p.get('tag', '') and rng.random() < 0.3):
             n = rng.randint(1, 4)
             items = []
             for _ in range(n):
